@@ -88,7 +88,7 @@ def run_engine(work, spec):
     spec["out"] = out
     json.dump(spec, open(sp, "w"), indent=1)
     t0 = time.time()
-    p = subprocess.run([os.path.join(VERIF, "bin", "gosymx"), "-spec", sp], env=GOENV, stdout=subprocess.PIPE, stderr=subprocess.PIPE, text=True)
+    p = subprocess.run([os.environ.get("VERIF_GOSYMX") or os.path.join(VERIF, "bin", "gosymx"), "-spec", sp], env=GOENV, stdout=subprocess.PIPE, stderr=subprocess.PIPE, text=True)
     dt = time.time() - t0
     if p.stderr.strip():
         log(p.stderr.strip()[-4000:])
